@@ -170,6 +170,31 @@ func specParsed(p *FrameParser) bool {
 //@ ensures[C02.icmpinfo.plain6] p.Layers[1] == layers.LayerTypeICMPv6 && SpecQ6ok(p.ICMP6.Payload) && SpecQ6Next(p.ICMP6.Payload) != 0 && SpecQ6Len(p.ICMP6.Payload) != 0 ==> ret1 == nil && len(ret0.Payload) == ite(SpecQ6Len(p.ICMP6.Payload) < len(p.ICMP6.Payload)-44, SpecQ6Len(p.ICMP6.Payload), len(p.ICMP6.Payload)-44)
 //@ modifies nothing
 
+// ---- C10 at the filter-attach boundary (linux): whatever fails while a capture filter is installed — the descriptor
+// control call, the socket option, the drain — comes back as an error that wraps that very cause; success is reported
+// only when every step succeeded.
+//@ func SetBPF
+//@ safety C10
+//@ requires[pre.filter]      len(filter) >= 1 && c != nil
+//@ ensures[C10.bpf.ctl]      ncalls(RawConn.Control) > old(ncalls(RawConn.Control)) && lastres(RawConn.Control, 0) != nil ==> ret0 != nil && wraps(ret0, lastres(RawConn.Control, 0))
+//@ ensures[C10.bpf.sockopt]  ncalls(SetsockoptSockFprog) > old(ncalls(SetsockoptSockFprog)) && lastres(SetsockoptSockFprog, 0) != nil ==> ret0 != nil && wraps(ret0, lastres(SetsockoptSockFprog, 0))
+//@ ensures[C10.bpf.class]    ret0 != nil ==> noRepoErr(ret0)
+//@ modifies nothing
+
+//@ func SetBPFAndDrain
+//@ safety C10
+// (dropAllFilter is the one-instruction literal of cbpf_filters.go; the C12 lemma reads the same literal)
+//@ requires[pre.filter]      len(filter) >= 1 && c != nil && len(dropAllFilter) >= 1
+//@ ensures[C10.drain.class]  ret0 != nil ==> noRepoErr(ret0)
+//@ ensures[C10.drain.set]    lastres(SetBPF, 0) != nil ==> ret0 != nil && wraps(ret0, lastres(SetBPF, 0))
+//@ ensures[C10.drain.recv]   ncalls(Recvfrom) > old(ncalls(Recvfrom)) && lastres(Recvfrom, 2) != nil && ret0 != nil && lastres(SetBPF, 0) == nil && ncalls(SetBPF) == old(ncalls(SetBPF)) + 1 && lastres(RawConn.Control, 0) == nil ==> wraps(ret0, lastres(Recvfrom, 2))
+//@ modifies nothing
+
+// (the drain loop: after it, recvErr is the error of the last receive)
+//@ func SetBPFAndDrain$1
+//@ inline
+//@ loop 1 invariant[drain.last] ncalls(Recvfrom) >= old(ncalls(Recvfrom)) && (ncalls(Recvfrom) > old(ncalls(Recvfrom)) ==> recvErr == lastres(Recvfrom, 2)) && (recvErr != nil ==> noRepoErr(recvErr))
+
 // ---- C09 at the capture boundary (linux): what the AF_PACKET socket delivers is arbitrary bytes. A frame that cannot
 // even carry an ethernet header is skipped like a non-IP frame; the only errors Read reports are the socket's own.
 //@ func stripEthernetHeader
